@@ -31,7 +31,10 @@ type Common struct {
 	//   "seeded" session.NewContext from a common seed and symmetric pairwise seeds drawn from
 	//            vh.NewRng(Seed, Prop, "ctx", 0) — what pkg/mpc/session/testutils.MakeRandomContexts does
 	Session string
-	Message []byte
+	// KeySource selects where the key shares come from (drivers that deal fresh keys):
+	// "" / "dealer" trusted dealer, "gennaro" the real Gennaro DKG (see Material).
+	KeySource string
+	Message   []byte
 }
 
 // Engine is the state of one run.
